@@ -405,3 +405,21 @@ CONTRACTS = [
         lemmas=["pv_store_frame", "pv_leading_zeros"],
     ),
 ]
+
+
+# ------------------------------------------------------------------------------------------------------------------ C20: the progress monitor never raises
+def monitor_variant(started):
+    return dict(
+        name="dsw.operation.Monitor.__call__#" + ("running" if started else "idle"), function="dsw.operation.Monitor.__call__",
+        variant_of="dsw.operation.Monitor.__call__", n_loops=1, self_class="Monitor", self_config={"started": started},
+        params={"self": "self", "current_state": "nat", "total_state": "nat", "extra": "none"},
+        # the precondition every verified call site is checked against (pyvc/calls.py monitor_call): nothing to report yet, or a non-empty job
+        requires={"nothing-yet-or-a-non-empty-job": "current_state == 0 or total_state != 0"},
+        returns="none", ensures={"returns-nothing": "isnone(result)"}, raises={},
+        # the percentage, the remaining time and the text are for display only: floats are opaque (finite), the progress bar loop and the text are not tracked
+        opaque_floats=True, havoc_loops=(1,), types={"string": "str"}, opaque_tail=("string",),
+        modifies=["self"],
+    )
+
+
+CONTRACTS = CONTRACTS + [monitor_variant(False), monitor_variant(True)]
